@@ -49,7 +49,7 @@ C = {
  "C15": ("differential between alternative construction paths, exhaustive over body sizes 0..4200 and 2^20 +- 16, generated child lists",
          "Scope::raw vs Scope::new, PackageBuilder vs Package, String vs &'static str, usize vs u64: byte equality, every body size through the PkgLength width boundaries enumerated.",
          "4 §C15", "neither path is trusted; absolute correctness is C06/C07's"),
- "C18": ("directed boundary sweep of 28 narrowing sites at maximum / maximum+1 / far beyond, in two build profiles (overflow checks off and on); oracle: must panic above the maximum, framing oracles of C03/C06 at the maximum",
+ "C18": ("directed boundary sweep of 33 narrowing sites (through the tables and on stand-alone entry objects) at maximum / maximum+1 / far beyond, in two build profiles (overflow checks off and on); oracle: must panic above the maximum, framing oracles of C03/C06 at the maximum",
          "Every encoded count/length field with a caller-controlled source is driven to its field maximum (control: accepted and correctly framed) and beyond (must panic) in the shipping arithmetic profile and, via a second binary, in the overflow-checking profile.",
          "4 §C18", "sizes needing >= 4 GiB of data are out of reach; the site catalogue is DESIGN §C18's"),
 }
